@@ -111,4 +111,174 @@ def hex (a : Addr) : List Char := '0' :: 'x' :: Nat.toDigits 16 a.val
 /-- `bool(a)` -/
 def nonzero (a : Addr) : Bool := a.val != 0
 
+/-! ### shifts with any right operand (added; `shl`/`shr` above are the `n ≥ 0` int case)
+
+`__lshift__` is `self.__class__(self._value << numbits, version)`.  `self._value` is a plain
+`int`, so `self._value << numbits` is CPython's `int.__lshift__`:
+  * `numbits` an `int` `< 0`          → `ValueError('negative shift count')`
+  * `numbits` an `int` `≥ 0`          → the exact product `value · 2^numbits`
+  * `numbits` an `IPAddress`          → `int.__lshift__` answers `NotImplemented`, the reflected
+                                         `IPAddress.__rlshift__` does not exist → `TypeError`
+    (`__index__` is *not* consulted by binary operators).
+The reflected spellings `n << a`, `n >> a` (an int on the left, the address as the count) hit the
+same missing `__rlshift__`/`__rrshift__`: always `TypeError`. -/
+
+/-- `v << x` for a Python int `v ≥ 0` and a right operand that is an int or an IPAddress -/
+def pyShl (v : Nat) : Operand → R Int
+  | .addr _ => .error .type_
+  | .int n => if n < 0 then .error .value else .ok ((v <<< n.toNat : Nat) : Int)
+
+/-- `v >> x` -/
+def pyShr (v : Nat) : Operand → R Int
+  | .addr _ => .error .type_
+  | .int n => if n < 0 then .error .value else .ok ((v >>> n.toNat : Nat) : Int)
+
+/-- `a << x`, any operand: the shift is evaluated first (its exception propagates), then the
+    constructor range-checks the product -/
+def lshift (a : Addr) (x : Operand) : R Addr := do
+  let r ← pyShl a.val x
+  ctor r (some a.ver)
+
+/-- `a >> x`, any operand -/
+def rshift (a : Addr) (x : Operand) : R Addr := do
+  let r ← pyShr a.val x
+  ctor r (some a.ver)
+
+/-- `n << a` (int on the left): `int.__lshift__(n, a)` is `NotImplemented` and `IPAddress` defines
+    no `__rlshift__` -/
+def rlshift (_a : Addr) (_n : Int) : R Addr := .error .type_
+
+/-- `n >> a` -/
+def rrshift (_a : Addr) (_n : Int) : R Addr := .error .type_
+
+/-! ### `__iadd__` / `__isub__` as the statements the Python writes (added)
+
+```
+def __iadd__(self, num):
+    new_value = int(self._value + num)
+    if 0 <= new_value <= self._module.max_int:
+        self._value = new_value
+        return self
+    raise IndexError('result outside valid IP address boundary!')
+```
+The body is kept as a list of statements run by a small interpreter over a state that holds the
+receiver object, the local `new_value`, the outcome and a log of the primitive events (attribute
+reads, the two comparisons of the chained test in their short-circuit order, attribute writes,
+return, raise).  A version of the body that assigned before testing would show a `writeValue`
+event in front of the `cmp…` events (and a changed receiver on the failing paths). -/
+namespace Inplace
+
+/-- statements without sub-statements -/
+inductive Prim where
+  /-- `new_value = int(self._value + num)`  /  `… - num` when `minus` -/
+  | compute (minus : Bool) (num : Int)
+  /-- `self._value = new_value` -/
+  | assign
+  /-- `return self` -/
+  | retSelf
+  /-- `raise IndexError(...)` -/
+  | raiseIndex
+deriving DecidableEq, Repr, Inhabited
+
+inductive Stmt where
+  | prim (p : Prim)
+  /-- `if 0 <= new_value <= self._module.max_int: body` -/
+  | ifInRange (body : List Prim)
+deriving Repr, Inhabited
+
+/-- primitive events, in the order they happen -/
+inductive Ev where
+  /-- `self._value` is read (yielding `v`) -/
+  | readValue (v : Nat)
+  /-- `0 <= new_value` evaluated -/
+  | cmpLo (ok : Bool)
+  /-- `self._module` is read (for `.max_int`); only reached when `cmpLo` passed -/
+  | readModule
+  /-- `new_value <= max_int` evaluated -/
+  | cmpHi (ok : Bool)
+  /-- `self._value` is written with `v` -/
+  | writeValue (v : Int)
+  | ret
+  | raise (e : Err)
+deriving DecidableEq, Repr, Inhabited
+
+structure St where
+  /-- the receiver object -/
+  self : Addr
+  /-- the local `new_value` (unset = 0; every body computes it first) -/
+  nv : Int := 0
+  log : List Ev := []
+  /-- `none` running · `some none` returned `self` · `some (some e)` raised `e` -/
+  out : Option (Option Err) := none
+deriving Repr, Inhabited
+
+def stepPrim (st : St) : Prim → St
+  | .compute minus num =>
+    { st with nv := if minus then (st.self.val : Int) - num else (st.self.val : Int) + num,
+              log := st.log ++ [.readValue st.self.val] }
+  | .assign => { st with self := ⟨st.self.ver, st.nv.toNat⟩, log := st.log ++ [.writeValue st.nv] }
+  | .retSelf => { st with out := some none, log := st.log ++ [.ret] }
+  | .raiseIndex => { st with out := some (some .index), log := st.log ++ [.raise .index] }
+
+/-- a statement list stops at the first `return` / `raise` -/
+def runPrims : List Prim → St → St
+  | [], st => st
+  | p :: ps, st => if st.out.isSome then st else runPrims ps (stepPrim st p)
+
+def runStmts : List Stmt → St → St
+  | [], st => st
+  | s :: ss, st =>
+    if st.out.isSome then st else
+    match s with
+    | .prim p => runStmts ss (stepPrim st p)
+    | .ifInRange body =>
+      --  chained comparison: `0 <= new_value` first; only if true `new_value <= self._module.max_int`
+      if 0 ≤ st.nv then
+        if st.nv ≤ (maxInt st.self.ver : Int) then
+          runStmts ss (runPrims body { st with log := st.log ++ [.cmpLo true, .readModule, .cmpHi true] })
+        else runStmts ss { st with log := st.log ++ [.cmpLo true, .readModule, .cmpHi false] }
+      else runStmts ss { st with log := st.log ++ [.cmpLo false] }
+
+/-- the body of `__iadd__` (`minus = false`) / `__isub__` (`minus = true`) -/
+def body (minus : Bool) (num : Int) : List Stmt :=
+  [.prim (.compute minus num), .ifInRange [.assign, .retSelf], .prim .raiseIndex]
+
+/-- run a body on a receiver -/
+def run (prog : List Stmt) (a : Addr) : St := runStmts prog { self := a }
+
+/-- the receiver afterwards and the exception, if any (a body that falls off its end returns
+    `None`; none of the bodies here does, it is reported as `Err.other`) -/
+def St.result (st : St) : Addr × Option Err :=
+  match st.out with
+  | some o => (st.self, o)
+  | none => (st.self, some .other)
+
+/-- `a += n` as executed -/
+def iaddRun (a : Addr) (n : Int) : St := run (body false n) a
+/-- `a -= n` as executed -/
+def isubRun (a : Addr) (n : Int) : St := run (body true n) a
+
+/-- what can be watched from outside the real object: reads of `_value`, reads of `_module`,
+    writes of `_value` -/
+def Ev.observable : Ev → Option String
+  | .readValue v => some s!"rv:{v}"
+  | .readModule => some "rm"
+  | .writeValue v => some s!"wv:{v}"
+  | _ => none
+
+end Inplace
+
+/-! ### `hex()` digit by digit (added): the specification string, written out independently of
+`Nat.toDigits` -/
+
+/-- the sixteen lowercase hexadecimal digit characters -/
+def lowerHexDigit : Nat → Char
+  | 0 => '0' | 1 => '1' | 2 => '2' | 3 => '3' | 4 => '4' | 5 => '5' | 6 => '6' | 7 => '7'
+  | 8 => '8' | 9 => '9' | 10 => 'a' | 11 => 'b' | 12 => 'c' | 13 => 'd' | 14 => 'e' | _ => 'f'
+
+/-- most significant digit first, no leading zeros, `"0"` for zero -/
+def hexDigits (n : Nat) : List Char :=
+  if _h : n < 16 then [lowerHexDigit n] else hexDigits (n / 16) ++ [lowerHexDigit (n % 16)]
+decreasing_by omega
+
 end NV.Address
